@@ -437,7 +437,13 @@ func (p *parser) substituteAmpersandsInCompoundSelector(
 	sel.NestingSelectorLocs = nil
 
 	// "div { :is(&.foo) {} }" => ":is(div.foo) {}"
-	for _, ss := range sel.SubclassSelectors {
+	//
+	// Note: This must not modify the selector list in place. The caller may
+	// substitute the same nested selector more than once with a different
+	// replacement each time (when ":is" is unsupported, once per parent
+	// selector), and these nodes are shared between those substitutions.
+	didCloneSubclassSelectors := false
+	for i, ss := range sel.SubclassSelectors {
 		if class, ok := ss.Data.(*css_ast.SSPseudoClassWithSelectorList); ok {
 			outer := make([]css_ast.ComplexSelector, 0, len(class.Selectors))
 			for _, complex := range class.Selectors {
@@ -447,7 +453,13 @@ func (p *parser) substituteAmpersandsInCompoundSelector(
 				}
 				outer = append(outer, css_ast.ComplexSelector{Selectors: inner})
 			}
-			class.Selectors = outer
+			if !didCloneSubclassSelectors {
+				didCloneSubclassSelectors = true
+				sel.SubclassSelectors = append([]css_ast.SubclassSelector{}, sel.SubclassSelectors...)
+			}
+			clone := *class
+			clone.Selectors = outer
+			sel.SubclassSelectors[i].Data = &clone
 		}
 	}
 
